@@ -63,6 +63,12 @@ impl ActorAttributeArguments {
 
             let ident = &get_ident(meta);
 
+            // EDIT ( `actor` and `family` members share the `actor` grammar )
+            if meta.path().is_ident(crate::EDIT){
+                self.edit.parse(&meta);
+                continue;
+            }
+
             if self.parse_shared_options(ident,meta,error::AVAIL_ACTOR){
                 continue;
             }
